@@ -48,9 +48,9 @@ define('values_kept(self, upto)',
        "       and same(slot(self, FN(self, i)), old(slot(self, FN(self, i)))))")
 _pi = c_packet.CONTRACTS['packet:Packet.pack_impl']
 _loops = {0: LoopSpec(_pi.loops[0].invariants + ["implies(sync_len_pack(class_of(self)) == 0, unchanged_slots(self))"],
-                      ghost=_pi.loops[0].ghost),
+                      ghost=_pi.loops[0].ghost, ghost_havoc=_pi.loops[0].ghost_havoc),
           1: LoopSpec(_pi.loops[1].invariants + ["implies(sync_len_pack(class_of(self)) == 0, values_kept(self, FT(self)))"],
-                      ghost=_pi.loops[1].ghost)}
+                      ghost=_pi.loops[1].ghost, ghost_havoc=_pi.loops[1].ghost_havoc)}
 _variant(_pi, 'C13#packet:Packet.pack_impl',
          free_requires=["TableDisjoint(self)"],
          ensures=_pi.ensures + [
@@ -60,3 +60,16 @@ _variant(_pi, 'C13#packet:Packet.pack_impl',
          loops=_loops,
          known=dict(_pi.known, **{'post#%d' % len(_pi.ensures):
                                   dict(id='K13c', case="sync_len_pack(class_of(self)) > 0")}))
+
+# a reference with a run-time selector must not write the (possibly shared) field object its selector hands out:
+# it does (finding K13b = F3 of DESIGN.md: the chosen field is renamed after this reference on every parse, so two
+# references - of one class or of two classes, in two threads or re-entrantly - that are handed the same Field
+# object parse into each other's attribute)
+_SELU = "cb(self.prototype, offset=offset, pkt=pkt, raw=raw, k=k)"
+_ru = c_field.CONTRACTS['field:Ref._unpack_using_callable']
+_variant(_ru, 'C13#field:Ref._unpack_using_callable',
+         ensures=_ru.ensures + [
+             "implies(isinst(old(%s), 'Field'), asref(old(%s), 'Field').field_name == old(asref(%s, 'Field').field_name))"
+             % (_SELU, _SELU, _SELU)],
+         known=dict(_ru.known, **{'post#%d' % len(_ru.ensures):
+                                  dict(id='K13b', case="isinst(old(%s), 'Field')" % _SELU)}))
